@@ -314,6 +314,9 @@ let monitors (lineno : int) (c : case) (x : run) (roots : string list) : unit =
             let cls = (match r with
                        | "GA" :: _ when same_uuid_add -> "get:appointment-visible-before-its-trigger-is-handled"
                        | ["GN"] when purged -> "get:not-found-after-its-owner-was-purged"
+                       | ("GT" | "GN") :: _ when List.exists (fun sr -> match List.nth sr i with "GE" :: _ -> true | _ -> false) c.seqreps
+                                                 && List.exists (fun sr -> match List.nth sr i with "GA" :: _ -> true | _ -> false) c.seqreps ->
+                           "get:expiry-test-before-the-block-tables-after-it"
                        | _ -> "get:reply-of-no-sequential-order") in
             mon lineno c "reply" cls (Printf.sprintf "thread=%d,reply=[%s],sequential=[%s]" i (String.concat " " r)
                                         (String.concat " || " (List.map (fun sr -> String.concat " " (List.nth sr i)) c.seqreps))) w
